@@ -169,6 +169,7 @@ structure St where
   cache : Key → Option (Option Val)
   cell : Nat
   readOnly : Bool
+  frozen : Bool      -- array variables are non-writeable (set by `copy(read_only=True)`, lost by pickling)
 
 structure Heap where
   st : Nat → St
@@ -180,13 +181,13 @@ structure Heap where
 
 def upd (f : Var → Nat) (x : Var) (n : Nat) : Var → Nat := fun y => if y = x then n else f y
 
-def St.empty : St := ⟨fun _ => 0, fun _ => 0, fun _ => none, 0, false⟩
+def St.empty : St := ⟨fun _ => 0, fun _ => 0, fun _ => none, 0, false, false⟩
 
 /-- one fresh `ChainState(pos=…, mom=…, dir=…)` -/
 def Heap.init : Heap :=
   { st := fun i => if i = 0 then
       ⟨fun | .pos => 1 | .mom => 2 | .dir => 3, fun | .pos => 1 | .mom => 2 | .dir => 3,
-       fun _ => none, 0, false⟩ else St.empty
+       fun _ => none, 0, false, false⟩ else St.empty
     nSt := 1, cells := fun _ _ _ => false, nCells := 1, nextStamp := 4, nextArr := 4 }
 
 def setSt (h : Heap) (sid : Nat) (f : St → St) : Heap :=
@@ -271,6 +272,7 @@ inductive Op
 inductive Out
   | ok
   | roError                              -- ReadOnlyStateError
+  | valueError                           -- numpy: in-place update of a non-writeable array
   | badId
   | val (v : Val) (tr : List Key)
   deriving DecidableEq, Repr
@@ -302,6 +304,7 @@ def step (tbl : Table) (cfg : Cfg) (h : Heap) : Op → Heap × Out
   | .assignIP sid x =>
     if sid < h.nSt then
       let s := h.st sid
+      if s.frozen then (h, .valueError) else
       let n := h.nextStamp
       -- `arr.__iadd__` first …
       let h1 : Heap := { h with st := fun i => sweepSt (s.arr x) x n (h.st i), nextStamp := n + 1 }
@@ -314,7 +317,7 @@ def step (tbl : Table) (cfg : Cfg) (h : Heap) : Op → Heap × Out
     if sid < h.nSt then
       let s := h.st sid
       let a := h.nextArr
-      let s' : St := { s with arr := fun | .pos => a | .mom => a + 1 | .dir => a + 2, readOnly := ro }
+      let s' : St := { s with arr := fun | .pos => a | .mom => a + 1 | .dir => a + 2, readOnly := ro, frozen := ro }
       ({ h with st := fun i => if i = h.nSt then s' else h.st i, nSt := h.nSt + 1, nextArr := a + 3 }, .ok)
     else (h, .badId)
   | .pickle sid =>
@@ -323,7 +326,7 @@ def step (tbl : Table) (cfg : Cfg) (h : Heap) : Op → Heap × Out
       let a := h.nextArr
       let newArr : Var → Nat := fun | .pos => a | .mom => a + 1 | .dir => a + 2
       let s' : St :=
-        { s with arr := newArr, cell := h.nCells,
+        { s with arr := newArr, cell := h.nCells, frozen := false,
                  cache := fun k => match s.cache k with
                    | some (some v) => if v.callable then none
                        else some (some { v with aliasOf := v.aliasOf.bind (remapAlias s.arr newArr) })
@@ -336,7 +339,7 @@ def step (tbl : Table) (cfg : Cfg) (h : Heap) : Op → Heap × Out
     let a := h.nextArr
     let n := h.nextStamp
     let s' : St := ⟨fun | .pos => n | .mom => n + 1 | .dir => n + 2, fun | .pos => a | .mom => a + 1 | .dir => a + 2,
-                    fun _ => none, h.nCells, false⟩
+                    fun _ => none, h.nCells, false, false⟩
     ({ h with st := fun i => if i = h.nSt then s' else h.st i, nSt := h.nSt + 1, nextArr := a + 3,
               nextStamp := n + 3,
               cells := fun c => if c = h.nCells then (fun _ _ => false) else h.cells c,
@@ -362,11 +365,12 @@ def trueProv (tbl : Table) (cfg : Cfg) (s : St) (sys m : Nat) : Prov3 :=
   | some e => Prov3.ofSet e.trueDeps s.stamp
   | none => Prov3.mixed
 
-/-- An in-place update `state.x += …` is *safe* when the state is writable and every cached value
+/-- An in-place update `state.x += …` is *safe* when the state is writable (or its arrays are
+frozen, in which case numpy refuses the update and nothing changes) and every cached value
 (in any state) that is the updated array object is an entry of this very state that the
 assignment invalidates. -/
 def SafeIP (h : Heap) (sid : Nat) (x : Var) : Prop :=
-  (h.st sid).readOnly = false ∧
+  (h.st sid).frozen = true ∨ (h.st sid).readOnly = false ∧
   ∀ i k v, (h.st i).cache k = some (some v) → v.aliasOf = some ((h.st sid).arr x) →
     i = sid ∧ h.cells (h.st sid).cell x k = true
 
@@ -383,7 +387,7 @@ def SafeHist (tbl : Table) (cfg : Cfg) : Heap → List Op → Prop
 request : `hist <sys>&<sys>… | <op>;<op>;…`
   sys   : `cls/aux/callable/alias` with aux = `m:k,m:k`, callable = `m,m`, alias = `m:v,m:v` (`-` = empty)
   op    : `a sid var` | `i sid var` | `c sid ro` | `p sid` | `f` | `m sid sys meth`
-response: per op `ok` | `ro` | `bad` | `v:<stale 0/1>:<evaluated keys sys.meth,…>` joined by `;` -/
+response: per op `ok` | `ro` | `ve` | `bad` | `v:<stale 0/1>:<evaluated keys sys.meth,…>` joined by `;` -/
 namespace Wire
 open MiciVerif.Proto
 
@@ -436,6 +440,7 @@ def showKey (k : Key) : String := s!"{k.sys}.{k.meth}"
 def showOut (tbl : Table) (cfg : Cfg) (hAfter : Heap) : Op → Out → String
   | _, .ok => "ok"
   | _, .roError => "ro"
+  | _, .valueError => "ve"
   | _, .badId => "bad"
   | .call sid sys m, .val v tr =>
     let stale := decide (v.prov ≠ trueProv tbl cfg (hAfter.st sid) sys m)
